@@ -116,8 +116,6 @@ def method_filter(ctx):
         ret = b.ret
         ws = writers_of(ex, ret) if ret is not None else []
         dflt = [w for w in ws if enclosing_body(ex, w.fact) is None]
-        ok = len(dflt) == 1 and dflt[0].rhs == pat("self.default") and dflt[0].guard is True and all(dflt[0].fact.seq < w.fact.seq for w in ws if w is not dflt[0])
-        ctx.check(ok, "C18.filter-default-first", dflt[0].fact.site if dflt else comp.site, f"MethodFilter.ret.default[{cn}]", found="; ".join(f"{tstr(w.rhs)}@{w.fact.seq}" for w in ws), required="the default value is assigned first and unconditionally (the target's result overrides it)")
         calls = calls_in_body(ex, b)
         cc = [c for c in calls if c.callee == pat("self.condition")]
         tc = [c for c in calls if c.callee == pat("self.target")]
@@ -129,6 +127,17 @@ def method_filter(ctx):
         g = _inner_guards(ex, tc[0], b)
         over = [w for w in ws if enclosing_body(ex, w.fact) is not None and w.rhs == ("ret", tc[0].callid)]
         same_guard = len(over) == 1 and _inner_guards(ex, over[0].fact, b) == g
+        # value of the result by last-writer decision table: the target's result where it is taken, the default everywhere else
+        # (an unconditional default followed by an override and an If/Else pair are both accepted)
+        if len(over) == 1:
+            G = over[0].guard
+            t = decision_table(ex, ret, sync=False)
+            check_table(ctx, "C18.filter-default", comp.site, f"MethodFilter.ret[{cn}]", t, [
+                (G, lambda r, c=tc[0].callid: r == ("ret", c), "where the target is called its result is returned"),
+                (f_and(run_f(b), f_not(G)), term_pred(pat("self.default")), "whenever the method runs without calling the target the configured default is returned"),
+            ])
+        else:
+            ctx.bad("C18.filter-default", comp.site, f"MethodFilter.ret[{cn}]", found=f"{len(over)} assignments of the target's result", required="the target's result is assigned once")
         if use_cond:
             # cond signal <- condition(m, arg); condition(nonblocking=True) with the single branch(cond)
             okg = len(g) == 2 and g[0][0] == "cond" and dict(g[0][2]).get("nonblocking") == ("c", True) and g[1][0] == "branch"
